@@ -62,6 +62,7 @@ def run(R):
         f = fields(line)
         if not op.startswith("C ") or line.startswith("crashed"): continue
         if f.get("app") == "0": bad.append((op, "the application-owned fields setting/input of the data object were written", line))
+        if f.get("edge") == "0": bad.append((op, "bytes in front of or behind the caller's data object were written", line))
         if f.get("out") == "unterminated" and f.get("ret") == "out": bad.append((op, "returned string is not NUL-terminated inside the 384-byte output field", line))
         if f.get("ret") == "other": bad.append((op, "returned pointer does not lie in the output field", line))
         if f.get("abort") != "0": bad.append((op, "the call aborted: " + "; ".join(sorted(set(getattr(R, "asserts", [])))[:3]), line))
